@@ -409,6 +409,9 @@ func init() {
 		return func(c *RunCtx) []*Batch {
 			r := c.R
 			b := evalBatch(prop, "tryeval")
+			if prop == "C04" {
+				probeAgreement(c)
+			}
 			n := c.N(700, 30000)
 			for k := 0; k < n; k++ {
 				gc := randGenCfg(r)
@@ -469,4 +472,24 @@ func init() {
 			return []*Batch{b}
 		},
 	})
+}
+
+// probeAgreement replays the recorded C04 finding against the real code: all variables available,
+// a non-boolean operand before a boolean last operand of and/or.
+func probeAgreement(c *RunCtx) {
+	for _, src := range []string{"(and 5 true)", "(or 7 false)", "(and x true)"} {
+		cc := eval.NewConfig(eval.Optimizations(false), eval.RegVarAndOp(map[string]interface{}{"x": 5}))
+		e, err := eval.Compile(cc, src)
+		if err != nil {
+			continue
+		}
+		ctx := eval.NewCtxFromVars(cc, map[string]interface{}{"x": 5})
+		v1, e1 := e.Eval(ctx)
+		v2, e2 := e.TryEval(ctx)
+		if (e1 == nil) != (e2 == nil) || (e1 == nil && v1 != v2) {
+			c.Direct = append(c.Direct, DirectViolation{What: fmt.Sprintf("all variables available, %s: Eval = %v/%v but TryEval = %v/%v", src, v1, e1, v2, e2),
+				Sig: "c04-nonbool-before-last-boolean-operand", Sample: src})
+			return
+		}
+	}
 }
